@@ -318,7 +318,7 @@ def LabelsOK (ls : List Bytes) : Prop := ∀ l ∈ ls, 1 ≤ l.length ∧ l.leng
 
 /-- what a successful `Name::emit` of the labels `ls` establishes -/
 structure NamePost (H : Nat × Nat → Prop) (e : Enc) (ls : List Bytes) (e' : Enc) : Prop where
-  laid : ∃ F, Laid e'.buf e.offset e.offset ls e'.offset F
+  laid : ∃ F, Laid e'.buf e.offset e.offset ls e'.offset F ∧ ∀ iv ∈ F, H iv
   inv : PtrInvH H e'
   app : e'.offset = e'.buf.length
   ext : ∃ x, e'.buf = e.buf ++ x
@@ -412,7 +412,11 @@ theorem namePost_of_loopPost {H : Nat × Nat → Prop} {e e2 e' : Enc} {ls : Lis
       have hbuf : e2.buf ++ [0 % 256] = e.buf ++ flat ls ++ [0] := by rw [hm.buf]
       refine ⟨?_, ?_, ?_, ⟨flat ls ++ [0], by simp [hm.buf]⟩, hm.max, ?_, hm.canon, hm.ne, ?_⟩
       · have := laid_root hlab hbuf [] ls rfl
-        exact ⟨_, by simpa [happ, hoff] using this⟩
+        refine ⟨_, by simpa [happ, hoff] using this, ?_⟩
+        intro iv hiv
+        simp only [List.mem_singleton] at hiv
+        subst hiv
+        exact hH _ _ (by simp [happ])
       · intro p hp'
         simp only at hp' ⊢
         rw [hp] at hp'
@@ -443,7 +447,11 @@ theorem namePost_of_loopPost {H : Nat × Nat → Prop} {e e2 e' : Enc} {ls : Lis
       hne, ?_⟩
     · have := laid_hit happ hlabf hbuf hloc h2 h3 [] f rfl
       rw [hls, hoff']
-      exact ⟨_, by simpa [happ] using this⟩
+      refine ⟨_, by simpa [happ] using this, ?_⟩
+      intro iv hiv
+      rcases List.mem_cons.1 hiv with rfl | hiv
+      · exact hH _ _ (by simp [happ])
+      · exact h4 iv hiv
     · intro p hp'
       rcases hptrs p hp' with hp' | hp'
       · exact hinv.old hp' (flat f ++ [192 + loc / 256, loc % 256]) (by simp [hbuf]) (by omega)
